@@ -122,7 +122,7 @@ impl Drop for Slot {
 }
 
 /// returns `Pending` once, without waking anybody
-struct Suspend(bool);
+pub(crate) struct Suspend(pub(crate) bool);
 impl Future for Suspend {
     type Output = ();
     fn poll(mut self: Pin<&mut Self>, _cx: &mut Context<'_>) -> Poll<()> {
@@ -224,46 +224,46 @@ async fn body(instrs: Vec<Instr>, calls: Vec<*mut Call>) {
 /// The C ABI of `crates/guest-rust/src/rt/async_support/cabi.rs`, re-declared here on purpose:
 /// it is the documented contract that lets *independent* implementations be the executor.
 #[repr(C)]
-struct Wasip3Task {
-    version: u32,
-    ptr: *mut c_void,
-    waitable_register: unsafe extern "C" fn(*mut c_void, u32, unsafe extern "C" fn(*mut c_void, u32), *mut c_void) -> *mut c_void,
-    waitable_unregister: unsafe extern "C" fn(*mut c_void, u32) -> *mut c_void,
+pub(crate) struct Wasip3Task {
+    pub(crate) version: u32,
+    pub(crate) ptr: *mut c_void,
+    pub(crate) waitable_register: unsafe extern "C" fn(*mut c_void, u32, unsafe extern "C" fn(*mut c_void, u32), *mut c_void) -> *mut c_void,
+    pub(crate) waitable_unregister: unsafe extern "C" fn(*mut c_void, u32) -> *mut c_void,
 }
 #[repr(C)]
-struct Wasip3TaskV2 {
-    v1: Wasip3Task,
-    vtable: &'static Vtable,
+pub(crate) struct Wasip3TaskV2 {
+    pub(crate) v1: Wasip3Task,
+    pub(crate) vtable: &'static Vtable,
 }
 #[repr(C)]
-struct Vtable {
+pub(crate) struct Vtable {
     waitable_register: unsafe extern "C" fn(*mut c_void, u32, unsafe extern "C" fn(*mut c_void, u32), *mut c_void) -> *mut c_void,
     waitable_unregister: unsafe extern "C" fn(*mut c_void, u32) -> *mut c_void,
     clone: unsafe extern "C" fn(*mut c_void) -> *mut c_void,
     drop: unsafe extern "C" fn(*mut c_void),
 }
 
-type Callback = unsafe extern "C" fn(*mut c_void, u32);
+pub(crate) type Callback = unsafe extern "C" fn(*mut c_void, u32);
 
 #[derive(Default)]
-struct TaskMaps {
+pub(crate) struct TaskMaps {
     /// task id -> waitable -> (callback, callback_ptr)
-    maps: BTreeMap<usize, BTreeMap<u32, (Callback, usize)>>,
-    clones: BTreeMap<usize, i64>,
+    pub(crate) maps: BTreeMap<usize, BTreeMap<u32, (Callback, usize)>>,
+    pub(crate) clones: BTreeMap<usize, i64>,
 }
 thread_local! {
-    static TASKS: RefCell<TaskMaps> = RefCell::new(TaskMaps::default());
+    pub(crate) static TASKS: RefCell<TaskMaps> = RefCell::new(TaskMaps::default());
     /// addresses of the harness's `wasip3_task` structs, by task id (0 = not available in this mode)
-    static TASK_PTRS: RefCell<[usize; 3]> = RefCell::new([0; 3]);
+    pub(crate) static TASK_PTRS: RefCell<[usize; 3]> = RefCell::new([0; 3]);
 }
 
-unsafe extern "C" fn t_register(ptr: *mut c_void, w: u32, cb: Callback, cb_ptr: *mut c_void) -> *mut c_void {
+pub(crate) unsafe extern "C" fn t_register(ptr: *mut c_void, w: u32, cb: Callback, cb_ptr: *mut c_void) -> *mut c_void {
     let t = ptr as usize;
     let prev = TASKS.with(|m| m.borrow_mut().maps.entry(t).or_default().insert(w, (cb, cb_ptr as usize)));
     ev(&format!("reg({t},{w})={}", prev.is_some() as u8));
     prev.map(|p| p.1).unwrap_or(0) as *mut c_void
 }
-unsafe extern "C" fn t_unregister(ptr: *mut c_void, w: u32) -> *mut c_void {
+pub(crate) unsafe extern "C" fn t_unregister(ptr: *mut c_void, w: u32) -> *mut c_void {
     let t = ptr as usize;
     let prev = TASKS.with(|m| m.borrow_mut().maps.entry(t).or_default().remove(&w));
     ev(&format!("unreg({t},{w})={}", prev.is_some() as u8));
@@ -280,9 +280,9 @@ unsafe extern "C" fn t_drop(ptr: *mut c_void) {
     TASKS.with(|m| *m.borrow_mut().clones.entry(t).or_default() -= 1);
     ev(&format!("tdrop({t})"));
 }
-static VTABLE: Vtable = Vtable { waitable_register: t_register, waitable_unregister: t_unregister, clone: t_clone, drop: t_drop };
+pub(crate) static VTABLE: Vtable = Vtable { waitable_register: t_register, waitable_unregister: t_unregister, clone: t_clone, drop: t_drop };
 
-struct Flag(AtomicBool);
+pub(crate) struct Flag(pub(crate) AtomicBool);
 impl Wake for Flag {
     fn wake(self: Arc<Self>) {
         self.0.store(true, Ordering::Relaxed)
